@@ -174,6 +174,24 @@ CLAIMED = {
              "over 2 handles, 2-3 ids, 4 policies, 4 documents; sampled beyond.",
         technique="TLA+ state machine of the policy container; exhaustive TLC-generated histories and simulated behaviours "
                   "replayed on real PolicySets; TLC trace validation of recorded random histories against the same actions"),
+    "C08": dict(
+        category="model_checking",
+        text="spec/Marshal.tla states what surviving a rendering means (same effect, annotations, scope; every condition evaluates "
+             "to the same value or the same kind of failure under every environment of the universe, by the TLA+ evaluator) and "
+             "spec/Syntax.tla reads text itself: Lex over code points (M1: Lex(Spell(ts)) = ts) followed by the grammar's "
+             "recursive-descent parser (M1: Parse(Render(a)) = a). TLC enumerates the inputs: every AST of the C07 universe, every "
+             "parent/child/position triple over integer and boolean operands, value nodes only programs or the JSON decoder can "
+             "build (sets, records with keys around the identifier border, all boundary decimals / datetimes / durations / "
+             "ipaddrs / longs as operands, receivers and arguments), annotation and string literals over the boundary strings, "
+             "policy sets under every id-order pattern, and every policy of the expression universe. The harness renders each "
+             "with the real MarshalCedar (built from the AST, decoded from its JSON, reparsed from its text), parses the text with "
+             "the real parser, renders again, and records code points and ASTs; Trace_Marshal compares the meaning of what came "
+             "back AND of what the specification's own lexer + parser read in the recorded text; random policies the same way.",
+        design_ref="DESIGN.md 4 C08",
+        note=TRUSTED + "Meaning is compared on finite environment sets. Spelling tables relating code points to atomic names are "
+             "computed by harness and checker (TLC cannot look inside strings). ASTs with no text form are outside the statement.",
+        technique="TLA+ lexer, parser and evaluator as the judge; TLC-enumerated ASTs rendered and reparsed by the Go code; TLC trace "
+                  "validation of every recorded rendering (text read by the specification) and of recorded random policies"),
 }
 
 PENDING ="check under construction in this session (the specification modules it needs are being written; see DESIGN.md 10)"
